@@ -26,9 +26,13 @@ RK == {"none", "val", "ptr"}
 
 \* a type: own[i] \in RK for method Names[i]; emb \in {"none","val","ptr"}; base = id of the embedded type (0 = none)
 \* embedded base types (fixed menu): 1: A val, c ptr   2: B ptr, d val   3: A ptr, B val, c val
+\* 4: A val, c val, d ptr - declared in the OTHER package: its unexported methods c, d are promoted into the
+\*    method set of the embedding type with the other package's names
 Base == << [own |-> <<"val", "none", "ptr", "none">>],
            [own |-> <<"none", "ptr", "none", "val">>],
-           [own |-> <<"ptr", "val", "val", "none">>] >>
+           [own |-> <<"ptr", "val", "val", "none">>],
+           [own |-> <<"val", "none", "val", "ptr">>] >>
+ForeignBase == 4
 
 \* declaration reached by method i on a value (ptr = FALSE) or pointer (ptr = TRUE) of type t; 0 = not in the method set;
 \* 100 = declared by the type itself, b = declared by embedded base type b
@@ -51,11 +55,15 @@ WellFormedIface(I) == (I.alt => 1 \in I.ms) /\ (I.foreign => (3 \in I.ms \/ 4 \i
 Implements(t, ptr, I) ==
   \A i \in I.ms : /\ Reach(t, i, ptr) # 0
                   /\ ~(I.alt /\ i = 1)                       \* signature mismatch on A
-                  /\ ~(I.foreign /\ i \in {3, 4})            \* unexported name of another package
+                  \* an unexported name belongs to a package: the interface's and the method's must be the same one
+                  /\ (i \in {3, 4} => (I.foreign <=> Reach(t, i, ptr) = ForeignBase))
 
 VARIABLES t, ptr, I
-Types == {[own |-> o, emb |-> e, base |-> b] : o \in [NIdx -> RK], e \in {"none", "val", "ptr"}, b \in 0..3}
-WellFormedType(x) == (x.emb = "none") = (x.base = 0)
+Types == {[own |-> o, emb |-> e, base |-> b] : o \in [NIdx -> RK], e \in {"none", "val", "ptr"}, b \in 0..4}
+\* (a type that embeds the foreign base declares no unexported methods itself: its own c and the promoted c would be two
+\* different methods, which the one-slot-per-name representation cannot hold)
+WellFormedType(x) == /\ (x.emb = "none") = (x.base = 0)
+                     /\ (x.base = ForeignBase => x.own[3] = "none" /\ x.own[4] = "none")
 \* keep the enumeration small: with an embedded type the outer type declares at most one method itself
 SmallType(x) == x.emb = "none" \/ Cardinality({i \in NIdx : x.own[i] # "none"}) <= 1
 
